@@ -453,3 +453,49 @@ def run(cx):
             oks = [s for bb in own for s in b.blocks[bb]["s"] if s["k"] == "assign" and s["rv"]["k"] == "agg" and (s["rv"].get("adt") == enum or s["rv"].get("variant") == "Ok")]
             ob.require(errs and not oks, f"{path}/default-err", f"{path}: the default arm does not return Err", b.path, b.loc())
             ob.set_sample({"fn": path, "table": {str(k): sorted(v) for k, v in table.items()}})
+
+    with cx.ob("C07.6", "R-CALLERS", "closed world of the codec path: the four message codecs and the header conversions call nothing that could transform route/headers/body") as ob:
+        allowed = (
+            f"{WIRE}::read_version_frame", f"{WIRE}::write_version_frame",
+            "anemo::types::request::RawRequestHeader::from_header", "anemo::types::request::Request::from_parts", "anemo::types::request::Request::into_parts",
+            "anemo::types::request::Request::version", "anemo::types::request::RequestHeader::from_raw",
+            "anemo::types::response::RawResponseHeader::from_header", "anemo::types::response::Response::from_parts", "anemo::types::response::Response::into_parts",
+            "anemo::types::response::Response::version", "anemo::types::response::ResponseHeader::from_raw",
+            "anemo::types::response::StatusCode::new", "anemo::types::response::StatusCode::to_u16",
+            "bincode::deserialize", "bincode::serialize_into", "bytes::buf::buf_mut::BufMut::writer", "bytes::bytes_mut::BytesMut::freeze", "bytes::bytes_mut::BytesMut::new",
+            "bytes::bytes_mut::BytesMut::with_capacity",
+            "core::default::Default::default", "core::future::future::Future::poll", "core::future::get_context", "core::future::into_future::IntoFuture::into_future",
+            "core::ops::deref::Deref::deref", "core::ops::deref::DerefMut::deref_mut", "core::ops::try_trait::FromResidual::from_residual", "core::ops::try_trait::Try::branch",
+            "core::option::Option::ok_or_else", "core::option::Option::ok_or", "core::pin::Pin::new_unchecked", "core::result::Result::expect", "core::result::Result::map_err",
+            "core::convert::Into::into", "core::convert::From::from", "core::mem::drop",
+            "futures_util::sink::SinkExt::send", "futures_util::stream::stream::StreamExt::next",
+            "tokio_util::codec::framed_read::FramedRead::get_mut", "tokio_util::codec::framed_write::FramedWrite::get_mut",
+        )
+        bodies = [cx.coroutine(f"{WIRE}::{f}") for f in ("write_request", "write_response", "read_request", "read_response")]
+        bodies += [cx.body(p) for p in ("anemo::types::request::RawRequestHeader::from_header", "anemo::types::response::RawResponseHeader::from_header",
+                                        "anemo::types::request::RequestHeader::from_raw", "anemo::types::response::ResponseHeader::from_raw",
+                                        "anemo::types::request::Request::into_parts", "anemo::types::request::Request::from_parts",
+                                        "anemo::types::response::Response::into_parts", "anemo::types::response::Response::from_parts")]
+        n = 0
+        for b in bodies:
+            for c in b.calls():
+                if b.is_cleanup(c.bb) or is_tracing(c) or in_ignored_expansion(b, c.bb):
+                    continue
+                n += 1
+                ok = c.fn is not None and c.fn in allowed
+                ob.require(ok, f"codec-path/unexpected-call/{owner_path(prog, b)}/{(c.fn or str(c.fty)).split('::')[-1]}",
+                           f"{b.path} calls {c.fn or c.fty}: the codec path may only move route/headers/body between the message and the frames "
+                           f"(closed allow-list; a transforming call here changes what is delivered)", b.path, b.loc(c.bb))
+        ob.floor(n, 60, "calls inspected in the codec path")
+        # and no field of the message parts is written in place on the codec path (headers.insert / status = ..)
+        for b in bodies:
+            for i, bl in enumerate(b.blocks):
+                if bl.get("cleanup"):
+                    continue
+                for s in bl["s"]:
+                    if s["k"] == "assign" and not isinstance(s["lhs"], int):
+                        names = [e.get("n") for e in s["lhs"]["p"] if isinstance(e, dict) and "f" in e]
+                        adts = [e.get("a") for e in s["lhs"]["p"] if isinstance(e, dict) and "f" in e]
+                        if any(a and (a.startswith("anemo::types::request::") or a.startswith("anemo::types::response::")) for a in adts):
+                            ob.fail("refuted", f"codec-path/in-place-write/{owner_path(prog, b)}/{'.'.join(str(x) for x in names)}",
+                                    f"{b.path} writes message field {names} in place on the codec path", b.path, b.loc(i))
